@@ -1,0 +1,33 @@
+//! Yield points for controlled-schedule verification (only compiled with `--cfg kira_verif`).
+//!
+//! A verification harness installs a callback; the library calls [`yield_point`] at a few
+//! places where another thread could be scheduled between two accesses to shared state, and
+//! the harness runs the other side's step there. Without the cfg flag none of this exists.
+
+static mut HOOK: Option<fn(u32)> = None;
+
+/// Installs (or removes) the callback run at every yield point.
+///
+/// # Safety
+/// Single-threaded use only (verification harnesses and their native replays).
+pub unsafe fn set_hook(hook: Option<fn(u32)>) {
+	HOOK = hook;
+}
+
+/// Called by the library at a yield point; `id` names the place.
+#[inline]
+pub fn yield_point(id: u32) {
+	// SAFETY: see `set_hook`
+	if let Some(hook) = unsafe { HOOK } {
+		hook(id);
+	}
+}
+
+/// `ClockShared::fractional_position`: between the handle's read of `ticks` and of the fraction.
+pub const CLOCK_READ_BETWEEN_WORDS: u32 = 1;
+/// `Clock::update_shared`: between the store of `ticks` and the store of the fraction.
+pub const CLOCK_WRITE_BETWEEN_WORDS: u32 = 2;
+/// `ResourceController::insert_with_key`: after draining the unused ring, before pushing the new resource.
+pub const CONTROLLER_INSERT_AFTER_DRAIN: u32 = 3;
+/// `ResourceStorage::remove_and_add` / `SelfReferentialResourceStorage::remove_and_add`: after removing, before adding.
+pub const STORAGE_BETWEEN_REMOVE_AND_ADD: u32 = 4;
